@@ -251,11 +251,106 @@ def check_large(case):
     return outcome(True, "values-equal", nontrivial=True)
 
 
+EDITS = {
+    # name: (component kind, component, new argument list, expected outcome)
+    "valid-shortcut": ("reaction", "v", ["n0"], "values"),
+    "valid-derived": ("derived", "n1", ["k"], "values"),
+    "missing-in-rate": ("reaction", "v", ["ghost"], "missing"),
+    "missing-in-derived": ("derived", "n1", ["ghost"], "missing"),
+    "cycle": ("derived", "n0", ["n1"], "circular"),
+    "self-loop": ("derived", "n1", ["n1"], "circular"),
+    "cycle-through-rate": ("derived", "n0", ["v"], "circular"),
+}
+
+
+def _edit_model(decl):
+    from mxlpy import InitialAssignment, Model
+
+    m = Model()
+    m.add_variable("x", 1.5)
+    m.add_parameter("k", 2.0)
+    for name in decl["order"]:
+        args = decl["args"][name]
+        if name == "v":
+            m.add_reaction("v", plus_one, args=args, stoichiometry={"x": 1})
+        elif name == "w":
+            m.add_parameter("w", InitialAssignment(fn=plus_one, args=args))
+        else:
+            m.add_derived(name, plus_one, args=args)
+    return m
+
+
+def check_edit(case):
+    """The graph is re-examined after an edit of an ALREADY EVALUATED model: a changed argument list is resolved,
+    a name that does not exist is reported, a cycle is reported - exactly as for a model declared that way."""
+    from mxlpy.model import CircularDependencyError, MissingDependenciesError
+
+    base = {"order": case["order"], "args": {"n0": ["k"], "n1": ["n0"], "v": ["n1"], "w": ["n1"]}}
+    m = _edit_model(base)
+    if case["warm"]:
+        m.get_args()
+        m.get_right_hand_side()
+    txt = f"{case}"
+    current = {k_: list(v_) for k_, v_ in base["args"].items()}
+    for step, ename in enumerate(case["edits"]):
+        kind, comp, new_args, expect = EDITS[ename]
+        if ename == "revert":
+            pass
+        current[comp] = list(new_args)
+        if kind == "reaction":
+            m.update_reaction(comp, args=list(new_args))
+        else:
+            m.update_derived(comp, args=list(new_args))
+        # what the graph IS now (an earlier valid edit may have removed the edge a later "cycle" needs)
+        known = {"k", "x", "time", *current}
+        if any(a not in known for args_ in current.values() for a in args_):
+            expect = "missing"
+        else:
+            def reaches(a, b, seen=()):
+                return any(c_ == b or (c_ in current and c_ not in seen and reaches(c_, b, (*seen, c_))) for c_ in current.get(a, []))
+            expect = "circular" if any(reaches(n_, n_) for n_ in current) else "values"
+        fresh = _edit_model({"order": case["order"], "args": current})
+        outs = {}
+        for label, mm in (("edited", m), ("fresh", fresh)):
+            res = {}
+            for qn, q in (("get_args", lambda mm=mm: mm.get_args()), ("get_initial_conditions", lambda mm=mm: mm.get_initial_conditions()),
+                          ("get_right_hand_side", lambda mm=mm: mm.get_right_hand_side())):
+                try:
+                    val = q()
+                    res[qn] = ("value", {k_: round(float(v_), 12) for k_, v_ in dict(val).items()})
+                except MissingDependenciesError as exc:
+                    res[qn] = ("missing", parse_missing(str(exc)))
+                except CircularDependencyError:
+                    res[qn] = ("circular", None)
+                except Exception as exc:  # noqa: BLE001
+                    res[qn] = ("other", f"{type(exc).__name__}: {str(exc)[:80]}")
+            outs[label] = res
+        for qn in outs["fresh"]:
+            tag = outs["edited"][qn][0]
+            if expect == "values" and tag != "value":
+                return outcome(False, "rejected-good-graph", symptom=f"edit:good-graph-rejected:{tag}", nontrivial=True, detail=f"after {case['edits'][: step + 1]}: {qn} gave {outs['edited'][qn]} | {txt}")
+            if expect != "values" and tag == "value":
+                return outcome(False, "numbers-for-bad-graph", symptom="edit:numbers-returned", nontrivial=True,
+                               detail=f"after {case['edits'][: step + 1]} ({expect} expected): {qn} returned numbers {str(outs['edited'][qn][1])[:120]} | {txt}")
+            if expect != "values" and tag != expect:
+                return outcome(False, "wrong-error", symptom=f"edit:wrong-error:{tag}", nontrivial=True, detail=f"after {case['edits'][: step + 1]}: {qn} gave {outs['edited'][qn]}, expected {expect} | {txt}")
+            if outs["edited"][qn] != outs["fresh"][qn]:
+                return outcome(False, "differs-from-fresh", symptom="edit:differs-from-model-declared-that-way", nontrivial=True,
+                               detail=f"after {case['edits'][: step + 1]}: {qn} edited {str(outs['edited'][qn])[:150]} fresh {str(outs['fresh'][qn])[:150]} | {txt}")
+        # back to the valid arguments before the next edit
+        if expect != "values":
+            current[comp] = list(base["args"][comp])
+            (m.update_reaction if kind == "reaction" else m.update_derived)(comp, args=list(base["args"][comp]))
+    return outcome(True, "edits-re-examined", nontrivial=True)
+
+
 def check(case):
     from mxlpy.model import CircularDependencyError, MissingDependenciesError
 
     from mc.spec import build
 
+    if case.get("family") == "edit":
+        return check_edit(case)
     if case.get("family") == "large":
         return check_large(case)
 
@@ -398,7 +493,7 @@ def generate(tier):
 
 def _self_dependency(case):
     """Input predicate: some component names itself (or a surrogate consumes its own output)."""
-    if case.get("family") == "large":
+    if case.get("family") in ("large", "edit"):
         return False
     if case.get("family") == "surr":
         return case["variant"] == "own"
@@ -418,6 +513,17 @@ def run(ctx):
     large = [{"family": "large", "n": n, "order": order, "defect": defect} for n in sizes for order in LARGE_ORDERS for defect in ("none", "cycle", "missing")]
     total += len(large)
     ctx.evaluate(large, chunk=1, timeout=600)
+    # edits of an already evaluated model: every single edit and every ordered pair, in 4 declaration orders
+    edits = []
+    for order in (["n0", "n1", "v", "w"], ["w", "v", "n1", "n0"], ["v", "n0", "w", "n1"], ["n1", "w", "n0", "v"]):
+        for warm in (True, False):
+            for e1 in EDITS:
+                edits.append({"family": "edit", "order": order, "warm": warm, "edits": [e1]})
+                for e2 in EDITS:
+                    if e2 != e1:
+                        edits.append({"family": "edit", "order": order, "warm": warm, "edits": [e1, e2]})
+    total += len(edits)
+    ctx.evaluate(edits, timeout=60)
     ctx.note(f"{total} cases (graphs x orders x kinds + overlays + provider family + {len(large)} chains of {sizes} components)")
     ctx.coverage_extra["max_components"] = 4 if ctx.tier == "thorough" else 3
     ctx.coverage_extra["large_chain_sizes"] = list(sizes)
